@@ -268,6 +268,7 @@ func (h *HttpServer) handleStreamInit(w http.ResponseWriter, r *http.Request) {
 	if info.HasHeader && streamResult.Header != nil {
 		initLogs := callCtx.drainLogs()
 		if err := h.server.writeStreamHeader(&buf, streamResult.Header, initLogs); err != nil {
+			handlerErr = err
 			h.writeHttpError(w, http.StatusInternalServerError, err, nil)
 			return
 		}
@@ -311,11 +312,13 @@ func (h *HttpServer) handleStreamInit(w http.ResponseWriter, r *http.Request) {
 		// Exchange init — return state token (carry schema for dynamic methods)
 		token, err := h.packCursorToken(callID, state, auth)
 		if err != nil {
+			handlerErr = err
 			h.writeHttpError(w, http.StatusInternalServerError, err, nil)
 			return
 		}
 		callToken, err := h.packCallToken(callID, outputSchema, auth, streamID)
 		if err != nil {
+			handlerErr = err
 			h.writeHttpError(w, http.StatusInternalServerError, err, nil)
 			return
 		}
